@@ -169,6 +169,24 @@ def load_known():
 		return json.load(fh).get("findings", [])
 
 
+ENV_VARIANTS = [({"VERIF_DEFAULT_DTYPE": "float64"}, 5)]
+
+
+def add_env_variants(mod, units):
+	"""Process-wide settings a caller may legitimately have changed: every
+	n-th unit of the plan is executed a second time in a worker with that
+	setting (module attribute ENV_VARIANTS overrides the default list;
+	[] switches it off)."""
+	out = list(units)
+	for env, every in getattr(mod, "ENV_VARIANTS", ENV_VARIANTS):
+		for i, u in enumerate(units):
+			if i % every == every - 1 or len(units) < every and i == 0:
+				u2 = dict(u)
+				u2["env"] = dict(u.get("env") or {}, **env)
+				out.append(u2)
+	return out
+
+
 def write_replay(pid, v):
 	d = os.path.join(HERE, "replays")
 	os.makedirs(d, exist_ok=True)
@@ -176,7 +194,8 @@ def write_replay(pid, v):
 	path = os.path.join(d, name)
 	with open(path, "w") as fh:
 		json.dump({"property": pid, "class": v["class"], "params": v["params"],
-			"mech": v.get("mech"), "detail": v.get("detail")}, fh, indent=1,
+			"mech": v.get("mech"), "detail": v.get("detail"),
+			**({"env": v["env"]} if v.get("env") else {})}, fh, indent=1,
 			default=str)
 	return os.path.join("replays", name)
 
@@ -310,9 +329,10 @@ def main(argv):
 			renv = dict(getattr(mod, "REPLAY_ENV", {}))
 			if "boundscheck" in str(case.get("class", "")):
 				renv["NUMBA_BOUNDSCHECK"] = "1"
+		renv.update(case.get("env") or {})
 		units = [{"cls": "__replay__", "case": case, "env": renv}]
 	else:
-		units = mod.plan(tier, seed)
+		units = add_env_variants(mod, mod.plan(tier, seed))
 	timeout = int(os.environ.get("VERIF_CHUNK_TIMEOUT", "0")) or getattr(mod,
 		"TIMEOUT", {}).get(tier, 900 if tier == "quick" else 7200)
 	target = getattr(mod, "CHUNKS", {}).get(tier, NCPU * 2)
